@@ -33,16 +33,17 @@ def build_sections(case):
     le = case['le']
     lstr_sec, lstr_offs = D.pool(case.get('lstrs', []), b'')
     str_sec, str_offs = D.pool(case.get('strs', []), b'\0')
+    sup_offs = D.pool(case.get('sup_strs', []), b'\0\0\0')[1]
     line = bytearray()
     offs = []
     for p in case['progs']:
         offs.append(len(line))
-        line += LP.enc_program(le, p, lstr_offs, str_offs)
-    # one CU per entry of case['cus'] = program index
+        line += LP.enc_program(le, p, lstr_offs, str_offs, sup_offs)
+    # one CU per entry of case['cus'] = program index; the version of the referring unit is independent of the table's
     units = []
-    for pi in case['cus']:
+    for k, pi in enumerate(case['cus']):
         p = case['progs'][pi]
-        ver = p['version']
+        ver = case['cu_vers'][k] if case.get('cu_vers') else p['version']
         form = 'DW_FORM_sec_offset' if ver >= 4 else ('DW_FORM_data4' if p['fmt'] == 32 else 'DW_FORM_data8')
         units.append({'version': ver, 'fmt': p['fmt'], 'addr_size': p['addr_size'], 'ut': 1, 'abtab': len(units), 'dwo_id': 0, 'sig': 0,
                       'die': {'ab': 0, 'vals': [{'s': b'cu'}, {'v': offs[pi]}], 'kids': []}, '_form': form})
@@ -66,6 +67,8 @@ def expected_v5_entries(case, p, fmtkey, entkey):
                 v = bytes(case['lstrs'][v])
             elif form == 'DW_FORM_strp':
                 v = bytes(case['strs'][v])
+            elif form in ('DW_FORM_strp_sup', 'DW_FORM_GNU_strp_alt'):
+                v = bytes(case['sup_strs'][v])
             elif form in ('DW_FORM_data16', 'DW_FORM_block'):
                 v = list(v)
             elif form == 'DW_FORM_string':
@@ -88,6 +91,13 @@ def run_case(ctx, case):
     try:
         di = D.make_dwarfinfo(secs, case['le'], case['progs'][0]['addr_size'])
         cus = list(di.iter_CUs())
+        if case.get('sup_strs'):
+            # the supplementary object file (attached the way ELFFile.get_dwarf_info does): its .debug_str holds the strp_sup strings,
+            # its .debug_line_str and the main file's tables hold different bytes at the same offsets
+            sup_str = D.pool(case['sup_strs'], b'\0\0\0')[0]
+            di.supplementary_dwarfinfo = D.make_dwarfinfo({'.debug_str': sup_str, '.debug_line_str': bytes((b ^ 0x20) if b else 0 for b in sup_str) + b'\0',
+                                                           '.debug_info': b'', '.debug_abbrev': b'\0'}, case['le'], case['progs'][0]['addr_size'])
+            ctx.count('sup.attached')
     except Exception as e:  # noqa
         ctx.fail_exc('open', e, case)
         return
@@ -99,6 +109,8 @@ def run_case(ctx, case):
         hdrp = {'min_inst': p['min_inst'], 'max_ops': p['max_ops'] if p['version'] >= 4 else 1, 'default_is_stmt': p['default_is_stmt'],
                 'line_base': p['line_base'], 'line_range': p['line_range'], 'opcode_base': p['opcode_base']}
         tag = 'v%d' % p['version']
+        if cu['version'] != p['version']:
+            ctx.count('unit.version-differs-from-table')
         try:
             lp = di.line_program_for_CU(cu)
         except Exception as e:  # noqa
@@ -255,6 +267,8 @@ def v5_value(ch, case, form):
         return ch.int(0, len(case['lstrs']) - 1)
     if form == 'DW_FORM_strp':
         return ch.int(0, len(case['strs']) - 1)
+    if form in ('DW_FORM_strp_sup', 'DW_FORM_GNU_strp_alt'):
+        return ch.int(0, len(case['sup_strs']) - 1)
     if form == 'DW_FORM_udata':
         return ch.choice([0, 1, 127, 128, ch.word(32)])
     if form.startswith('DW_FORM_data') and form != 'DW_FORM_data16':
@@ -280,7 +294,7 @@ def build_prog(ch, tier, case, cell=None):
         for fmtkey, entkey, cts in (('dir_format', 'dirs5', [1]), ('file_format', 'files5', [1, 2, 3, 4, 5])):
             use = [1] + [c for c in cts[1:] if ch.bool(0.5)]
             use = ch.perm(use) if ch.bool(0.3) else use
-            formats = [[c, ch.choice(V5_FORMS[c])] for c in use]
+            formats = [[c, ch.choice(V5_FORMS[c] + (['DW_FORM_strp_sup', 'DW_FORM_GNU_strp_alt'] if c == 1 and case.get('sup_strs') else []))] for c in use]
             if ch.int(0, 9) == 0:
                 formats = []
             n = ch.choice([0, 1, 2, 5]) if formats else 0     # an entry without DW_LNCT_path is not well-formed
@@ -333,12 +347,16 @@ def build_prog(ch, tier, case, cell=None):
 
 def build_case(ch, tier, cells=None):
     case = {'le': ch.bool(), 'strs': [b'str0', b'', b's' * 66], 'lstrs': [b'/cwd', b'main.c', b'', b'l' * 64]}
+    if ch.bool(0.3):
+        case['sup_strs'] = [b'/sup/dir', b'sup_file.c', b'', b'S' * 65]      # a supplementary object file is attached
     n = len(cells) if cells else ch.choice([1, 1, 2, 3, 4])
     case['progs'] = [build_prog(ch, tier, case, cells[i] if cells else None) for i in range(n)]
     cus = ch.perm(list(range(n)))
     if ch.bool(0.3):
         cus.append(ch.int(0, n - 1))      # two CUs sharing one program (cache)
     case['cus'] = cus
+    # a unit and the line table it designates need not have the same version (a DWARF 5 unit over a version 3 table is common)
+    case['cu_vers'] = [case['progs'][pi]['version'] if ch.bool(0.6) else ch.choice([2, 3, 4, 5]) for pi in cus]
     return case
 
 
@@ -390,6 +408,8 @@ def sweep(tier):
                         p['ops'] = ops
                         case['progs'] = [p]
                         case['cus'] = [0]
+                        if k % 2:
+                            case['cu_vers'] = [5 if ver < 5 else 4]
                         cases.append(case)
     return cases
 
@@ -400,7 +420,7 @@ def floors(ctx):
     for k in list(REF.STD) + ['sp', 'unk_std', 'unk_ext', 'define_file', 'set_discriminator', 'set_address', 'end_sequence']:
         if c['op.' + k] == 0:
             out.append('opcode never generated: ' + k)
-    for k in ('hdr.opcode_base<13', 'hdr.opcode_base>13', 'hdr.max_ops>1'):
+    for k in ('hdr.opcode_base<13', 'hdr.opcode_base>13', 'hdr.max_ops>1', 'unit.version-differs-from-table', 'sup.attached'):
         if c[k] == 0:
             out.append('no program with ' + k)
     for ver in (2, 3, 4, 5):
